@@ -122,7 +122,9 @@ class StmtMixin:
         if t.name == "Seq":
             return VSeq(z3.Empty(z3.SeqSort(ty.kind_sort(t.args[0]))), t.args[0])
         if t.name == "ListRef":
-            return self.heap.new_list([])
+            r = self.heap.new_list([])
+            r.elem = t.args[0]
+            return r
         raise OutOfSubset("locals", repr(t))
 
     def st_Assign(self, st, env):
@@ -154,6 +156,12 @@ class StmtMixin:
                     hint = ty.ListRef()  # list of objects: a heap list (identity matters)
             if hint is not None:
                 v = self.empty_of_type(hint)
+        if isinstance(st.target, ast.Name) and isinstance(v, VRef) and v.elem is None:
+            hint = self.ctx.contract.locals.get(st.target.id)
+            if hint is not None and hint.name == "ListRef":
+                v.elem = hint.args[0]
+            elif ast.unparse(st.annotation).startswith("list[tuple["):
+                v.elem = "tuple"
         self.bind_target(st.target, v, env, st)
 
     def st_AugAssign(self, st, env):
@@ -305,6 +313,13 @@ class StmtMixin:
                 base = self.ev(tgt.value, env)
                 if isinstance(base, VRef):
                     idx = self.ev(tgt.slice, env)
+                    # call_asserts keyed "del <target text>" (clauses over the caller's variables)
+                    clauses = self.ctx.contract.call_asserts.get("del " + ast.unparse(tgt.value), [])
+                    if clauses and not self.pure:
+                        sub = self.pure_eval()
+                        for cl in clauses:
+                            t = sub.truth(sub.ev(ast.parse(cl, mode="eval").body, env))
+                            self.ctx.oblige(self.path, "assert@callsite", f"del {ast.unparse(tgt)}: {cl} @L{st.lineno}", t, st)
                     self.heap.delitem(base, idx, st, env)
                     continue
             self.oos(st, "del target")
@@ -402,7 +417,10 @@ class StmtMixin:
         # establish
         self.check_clauses(lc.invariant, env, f"inv-init:{tag}", st)
         mod = self.E.assigned_names(st.body, self.closure_fx)
+        lframe = self.heap.loop_frame(lc, env, tag) if self.path.heap else None
         self.heap.havoc_for_loop(lc, env, tag)
+        if lframe is not None:
+            lframe["alloc"] = self.path.heap["$alloc"]
         self.havoc(mod, env, tag)
         self.check_clauses(lc.invariant, env, "assume", st, assume=True)
         self.instantiate_foralls(lc.instances, env)
@@ -413,12 +431,22 @@ class StmtMixin:
             d0 = sub.ev(ast.parse(lc.decreases, mode="eval").body, env).t
         c = self.truth(self.ev(st.test, env))
         if self.path.branch(c):
+            frames = getattr(self, "loop_frames", None)
+            if frames is None:
+                frames = self.loop_frames = []
+            if lframe is not None:
+                frames.append(lframe)
             try:
                 self.exec_block(st.body, env)
             except self.E.Cont:
                 pass
             except self.E.Brk:
                 return
+            finally:
+                if lframe is not None:
+                    frames.pop()
+            if lframe is not None:
+                self.ctx.obligations.extend(lframe.pop("pending", []))
             self.run_ghost(lc.ghost_end, env)
             self.check_clauses(lc.invariant, env, f"inv-preserve:{tag}", st)
             if d0 is not None:
@@ -458,10 +486,13 @@ class StmtMixin:
         mod = self.E.assigned_names(st.body, self.closure_fx) | self.E.assigned_names([ast.Assign(targets=[st.target], value=ast.Constant(0))], {})
         target_names = self.E.assigned_names([ast.Assign(targets=[st.target], value=ast.Constant(0))], {})
         target_names |= {"~" + x for x in target_names}
+        lframe = self.heap.loop_frame(lc, env, tag) if self.path.heap else None
         self.heap.havoc_for_loop(lc, env, tag)
+        if lframe is not None:
+            lframe["alloc"] = self.path.heap["$alloc"]
         self.havoc(mod - target_names, env, tag)
         # the length of a heap list may change inside the loop only if the loop leaves right after
-        n, elem = self.iter_source(it, st) if isinstance(it, VRef) else (n, elem)
+        n, elem = self.iter_source(it, st)  # re-read: also for enumerate()/reversed() wrappers around a heap list
         i = self.path.fresh(f"{ghost}@{tag}", z3.IntSort())
         self.path.assume(z3.And(i >= 0, i <= n), check=False)
         env.vars[ghost] = VInt(i)
@@ -480,6 +511,11 @@ class StmtMixin:
                         self.path.fold_slices.append((fspec, it.t, i + 1))
                 self.path.prefix_slices.setdefault(it.t.get_id(), []).append((it.t, i + 1))
             self.bind_target(st.target, elem(i), env, st)
+            frames = getattr(self, "loop_frames", None)
+            if frames is None:
+                frames = self.loop_frames = []
+            if lframe is not None:
+                frames.append(lframe)
             try:
                 self.exec_block(st.body, env)
             except self.E.Cont:
@@ -487,6 +523,11 @@ class StmtMixin:
             except self.E.Brk:
                 env.vars.pop(ghost, None)
                 return
+            finally:
+                if lframe is not None:
+                    frames.pop()
+            if lframe is not None:
+                self.ctx.obligations.extend(lframe.pop("pending", []))
             env.vars[ghost] = VInt(i + 1)
             self.run_ghost(lc.ghost_end, env)
             self.check_clauses(lc.invariant, env, f"inv-preserve:{tag}", st)
